@@ -1240,9 +1240,15 @@ class Interp:
             x, y = a.t, b.t
         elif isinstance(a, VBytes) and isinstance(b, VBytes):
             na, nb = a.conc_len(), b.conc_len()
-            if na is None or nb is None or na != nb:
+            if na == 0 or nb == 0:
+                # the empty string is smaller than every non-empty one
+                x, y = z3.IntVal(0 if na == 0 else 1), z3.IntVal(0 if nb == 0 else 1)
+                if na is None or nb is None:
+                    raise Unsupported('ordering against a symbolic-length byte string', node)
+            elif na is None or nb is None or na != nb:
                 raise Unsupported('ordering of byte strings of unequal/symbolic length', node)
-            x, y = bytes_num(ctx, a, node), bytes_num(ctx, b, node)
+            else:
+                x, y = bytes_num(ctx, a, node), bytes_num(ctx, b, node)
         else:
             r = prims.compare_ext(ctx, op, a, b, node)
             if r is not None:
@@ -1337,6 +1343,8 @@ class Interp:
             return VFunc('meth', name, recv)
         if isinstance(recv, (prims.VStruct, prims.VLogger)):
             return VFunc('meth', name, recv)
+        if isinstance(recv, VNone):
+            raise RaiseSig(VExc('builtins:AttributeError'))
         if isinstance(recv, VFunc):
             raise Unsupported('attribute %s of function' % name, node)
         raise Unsupported('attribute %s of %r' % (name, recv), node)
